@@ -45,6 +45,7 @@ type thread struct {
 	cond func() bool // nil ⇒ enabled
 	done bool
 	goid uint64
+	pass bool // inside Passthrough: hooks ignore this thread
 }
 
 func (t *thread) enabled() bool { return !t.done && (t.cond == nil || t.cond()) }
@@ -101,7 +102,7 @@ func self() (*Sched, *thread) {
 		return nil, nil
 	}
 	t := v.(*thread)
-	if t.s != s { // a thread left over from an aborted execution
+	if t.s != s || t.pass { // a thread left over from an aborted execution, or inside Passthrough
 		return nil, nil
 	}
 	return s, t
@@ -386,4 +387,19 @@ func RunOnce(prefix []int, horizon int, body func() interface{}) *Exec {
 		x.Diverged = fmt.Sprintf("prefix has %d choices but the execution had only %d points", len(prefix), len(s.Points))
 	}
 	return x
+}
+
+// Passthrough runs f on the calling thread with every hook disabled: shims are
+// the real primitives, `go` statements start plain goroutines and no schedule
+// point is taken. Harnesses use it for set-up and tear-down of heavy objects
+// (only while no other thread can touch them).
+func Passthrough(f func()) {
+	_, t := self()
+	if t == nil {
+		f()
+		return
+	}
+	t.pass = true
+	defer func() { t.pass = false }()
+	f()
 }
